@@ -213,6 +213,15 @@ def run(case, rec):
         got = call(rec, vd.pad_region, reg, pad_v)
         if raised(got):
             return rec.check(False, "pad_region raised %r" % (got,))
+        # the region handed over as a float64 / int64 ndarray: same result, and the caller's array is untouched (seed C13-r2_2)
+        for dt in (np.float64, np.int64):
+            if dt is np.int64 and any(v != int(v) for v in reg):
+                continue
+            arr = np.array(reg, dtype=dt)
+            keep = arr.copy()
+            g2 = call(rec, vd.pad_region, arr, pad_v)
+            rec.check(not raised(g2) and tuple(float(v) for v in g2) == tuple(float(v) for v in got), "pad_region(ndarray region) differs from the list form: %r" % (g2,))
+            rec.check(np.array_equal(arr, keep), "pad_region modified the region array it was given")
         want = (reg[0] - pe, reg[1] + pe, reg[2] - pn, reg[3] + pn)
         rec.check(tuple(float(v) for v in got) == want, "pad_region(%r, %r) = %r, expected %r (pad is (north, east))" % (reg, pad_v, got, want))
         neg = tuple(-v for v in pad_v) if isinstance(pad_v, (tuple, list)) else -pad_v
